@@ -3,10 +3,10 @@
    their factory (Gen/Src_aesmode.v, Src_aes.v), the header / HMAC code (Gen/Src_fheader.v, Src_cry.v) and the three hash classes,
    run under the thread semantics MiniCConc with a scheduler given as a function (a deterministic policy with a seed).
 
-   The only hand-written part is what the harness' driver does too (harness/drv.cpp op_enc / op_decver): building the runcrypt
-   object.  runcrypt's constructor has a by-value class parameter (Settings) that MiniC does not express; its member initialisers
-   are therefore issued here in declaration order: the scalar members as initial memory, the member objects by their TRANSLATED
-   constructors (FileHeader/6, AesFactory/1, multicry_master/1).  The constructor's text stays pinned (Gen/Orch.v). *)
+   Nothing of the operation is hand-written: the caller's part (what harness/drv.cpp op_enc / op_decver do) is two constructor
+   calls, Settings st(cm, hm, no_echo); runcrypt rc(fin, fout, key, st, T); both constructors are translated (runcrypt's takes
+   Settings by value: the callee receives the address of the caller's object and may only read it -- tools/cgen.py rejects anything
+   else; its implicit member-wise copy goes through generated accessors). *)
 From Coq Require Import ZArith NArith List String Bool.
 From Wencry Require Import Bytes MiniC MiniCRun MiniCConc SrcRun SrcRun2.
 From Wencry.Gen Require Src_aes Src_aesmode Src_conc Src_cry Src_fheader Src_whole.
@@ -32,8 +32,9 @@ Definition without {A} (names : list string) (l : list (string * A)) : list (str
   filter (fun kv => negb (existsb (String.eqb (fst kv)) names)) l.
 
 Definition op_layer (prev : state) (F key extra : list N) : state :=
-  let m := mk_objects "rc." Src_cry.objects_runcrypt ++ [("key", bytes_object key); ("seed", bytes_object (extra ++ [0%N]))] in
-  let ps := [("rc.fin", VPtr "fin" 0); ("rc.out", VPtr "fout" 0); ("rc.key", VPtr "key" 0)] in
+  let m := mk_objects "rc." Src_cry.objects_runcrypt ++ mk_objects "st." Src_whole.objects_Settings
+           ++ [("key", bytes_object key); ("seed", bytes_object (extra ++ [0%N]))] in
+  let ps := [("rc.fin", VNull); ("rc.out", VNull); ("rc.key", VNull)] in
   {| mem := m ++ without (names_of m) (mem prev);
      loc := []; pre := "";
      files := [("fin", stream F 0); ("fout", stream [] 0)];
@@ -43,20 +44,11 @@ Definition op_layer (prev : state) (F key extra : list N) : state :=
 Definition whole_state (c hbuf T : nat) (cm hm : Z) (no_echo : bool) (F key extra : list N) : state :=
   op_layer (process_init c hbuf) F key extra.
 
-Definition set_scalar (name : string) (t : ity) (v : Z) : stmt := SStore t (EGlobal name) (EConst v).
-
-(* runcrypt rc(fin, fout, key, Settings(cm, hm, no_echo), T) *)
+(* Settings st(cm, hm, no_echo); runcrypt rc(fin, fout, key, st, T); *)
 Definition construct (T : nat) (cm hm : Z) (no_echo : bool) : stmt :=
-  SSeq (set_scalar "rc.settings.ctype" I8 cm)
- (SSeq (set_scalar "rc.settings.htype" I8 hm)
- (SSeq (set_scalar "rc.settings.no_echo" TBool (if no_echo then 1 else 0))
- (SSeq (set_scalar "rc.threads_num" U8 (Z.of_nat T))
- (SSeq (set_scalar "rc.mode" TBool 0)
- (SSeq (SCall None "FileHeader::FileHeader/6" (Some (EField "rc.header."))
-             [EPtrVar (EField "rc.fin"); EPtrVar (EField "rc.out"); EPtrVar (EField "rc.key");
-              ECast U8 (EConst cm); ECast U8 (EConst hm); EConst (Z.of_nat T)])
- (SSeq (SCall None "AesFactory::AesFactory/1" (Some (EField "rc.aesfactory.")) [EPtrVar (EField "rc.key")])
-       (SCall None "multicry_master::multicry_master/1" (Some (EField "rc.crym.")) [EConst (Z.of_nat T)]))))))).
+  SSeq (SCall None "Settings::Settings/3" (Some (EField "st.")) [ECast I8 (EConst cm); ECast I8 (EConst hm); EConst (if no_echo then 1 else 0)])
+       (SCall None "runcrypt::runcrypt/5" (Some (EField "rc."))
+              [EGlobal "fin"; EGlobal "fout"; EGlobal "key"; EField "st."; EConst (Z.of_nat T)]).
 
 Inductive whole_op := WEnc | WDec | WVer.
 Definition whole_main (op : whole_op) (T : nat) (cm hm : Z) (no_echo : bool) (fsize : Z) : stmt :=
